@@ -36,6 +36,11 @@ pub fn oracle(spec: &RespSpec, case: &RespCase, out: &RespOut) -> Result<(), (St
             [Ev::Err(k)] if *k == format!("status{}", spec.status) => Ok(()),
             other => Err((format!("error-for-status-{}", fr), format!("error_for_status() on status {} gave {:?}", spec.status, other.first().map(|e| e.to_string())))),
         },
+        // the text family: the whole body is read and decoded (what the text is, is C18's business)
+        Reads::Drain(how) if crate::resp::is_text_drain(*how) => match out.events.as_slice() {
+            [Ev::Ok(_)] => Ok(()),
+            other => Err((format!("text-error-{}", fr), format!("text() / text_with() / text_reader() gave {:?} on a well-formed response", other.first().map(|e| e.to_string())))),
+        },
         Reads::Drain(_) => match out.events.as_slice() {
             [Ev::Ok(bs)] if *bs == payload => Ok(()),
             [Ev::Ok(bs)] => Err((format!("bytes-mismatch-{}", fr), format!("bytes() returned {} bytes, payload has {}", bs.len(), payload.len()))),
@@ -101,8 +106,11 @@ pub fn generate(seed: u64, tier: &str, sink: &mut Sink) {
         let payload_len = spec.payload().len();
         let (reads, rname) = if rng.chance(1, 12) {
             (Reads::Text(8192), "text_utf8()")
-        } else if rng.chance(1, 5) {
-            match rng.below(5) {
+        } else if rng.chance(1, 4) {
+            match rng.below(8) {
+                5 => (Reads::Drain(crate::resp::DRAIN_TEXT), "text()"),
+                6 => (Reads::Drain(crate::resp::DRAIN_TEXT_WITH), "text_with()"),
+                7 => (Reads::Drain(crate::resp::DRAIN_TEXT_READER), "text_reader()+read_to_string"),
                 4 => (Reads::Drain(crate::resp::DRAIN_WRITE_TO_SHORT), "write_to(short-writing sink)"),
                 0 => (Reads::Drain(crate::resp::DRAIN_WRITE_TO), "write_to()"),
                 1 => (Reads::Drain(crate::resp::DRAIN_SPLIT), "split()+read_to_end"),
